@@ -15,7 +15,7 @@ from flax.nnx.nn import attention as NA, recurrent as NR, linear as NL
 from flax.nnx.nn import dtypes as ND
 
 from harness.common import qualnames
-from harness.c12 import SymEnv as _BaseEnv, _JaxProxy, _Random, idxs, _prove
+from harness.c12 import SymEnv as _BaseEnv, _JaxProxy, _Random, idxs, _prove, be, R
 import harness.c12 as C12
 from vf.ob import Ob
 from vf import sym, symnp
@@ -28,6 +28,8 @@ MODS = [LA, LR, LD, LL, NA, NR, NL, ND]
 class SymEnv(_BaseEnv):
   def __enter__(self):
     self.saved = []
+    if sym.CONCRETE['on']:
+      return _BaseEnv.__enter__(self)
     for m in MODS:
       for name, repl in (('jnp', symnp.JNP), ('lax', symnp.LAX),
                          ('jax', _JaxProxy()), ('random', _Random())):
@@ -52,29 +54,29 @@ def masks(which):
     k = A.sym('km', (2, 4), 'bool')
     qn = A([S(z3.If(v.t, z3.IntVal(1), z3.IntVal(0))) for v in q.data], q.shape)
     kn = A([S(z3.If(v.t, z3.IntVal(1), z3.IntVal(0))) for v in k.data], k.shape)
-    m = LA.make_attention_mask(qn, kn, pairwise_fn=symnp.JNP.multiply)
+    m = LA.make_attention_mask(R(qn), R(kn), pairwise_fn=be('multiply'))
     want = []
     for b, i, j in idxs((2, 3, 4)):
       want.append(S(z3.And(q.at((b, i)).t, k.at((b, j)).t)))
     cases.append(('make_attention_mask', _truth(m), A(want, (2, 1, 3, 4))))
     x = A.sym('tok', (2, 4))
-    cm = LA.make_causal_mask(x)
+    cm = LA.make_causal_mask(R(x))
     wc = [S(z3.BoolVal(i >= j)) for b, i, j in idxs((2, 4, 4))]
     cases.append(('make_causal_mask', _truth(cm), A(wc, (2, 1, 4, 4))))
     m1 = A.sym('m1', (1, 1, 2, 3), 'bool')
     m2 = A.sym('m2', (1, 1, 2, 3), 'bool')
-    cmb = LA.combine_masks(m1, None, m2)
+    cmb = LA.combine_masks(R(m1), None, R(m2))
     wcm = [S(z3.And(a.t, b.t)) for a, b in zip(m1.data, m2.data)]
     cases.append(('combine_masks', _truth(cmb), A(wcm, (1, 1, 2, 3))))
     if LA.combine_masks(None, None) is not None:
       return dict(status='sat', cex=dict(case='combine_masks(None)'),
                   detail='no masks must give None')
     cases.append(('nnx.make_attention_mask', _truth(NA.make_attention_mask(
-        qn, kn, pairwise_fn=symnp.JNP.multiply)),
+        R(qn), R(kn), pairwise_fn=be('multiply'))),
                   A(want, (2, 1, 3, 4))))
-    cases.append(('nnx.make_causal_mask', _truth(NA.make_causal_mask(x)),
+    cases.append(('nnx.make_causal_mask', _truth(NA.make_causal_mask(R(x))),
                   A(wc, (2, 1, 4, 4))))
-    cases.append(('nnx.combine_masks', _truth(NA.combine_masks(m1, m2)),
+    cases.append(('nnx.combine_masks', _truth(NA.combine_masks(R(m1), R(m2))),
                   A(wcm, (1, 1, 2, 3))))
   return _prove(cases, t0)
 
@@ -97,9 +99,10 @@ def attention(which):
       v = A.sym('v', (Lk, H, D))
       bias = A.sym('bias', (H, Lq, Lk)) if use_bias else None
       mask = A.sym('mask', (H, Lq, Lk), 'bool') if use_mask else None
-      w = LA.dot_product_attention_weights(q, k, bias=bias, mask=mask,
+      w = LA.dot_product_attention_weights(R(q), R(k), bias=R(bias), mask=R(mask),
                                            deterministic=True)
-      fill = symnp.JNP.finfo(None).min
+      fill = (S(float(np.finfo(np.float32).min)) if sym.CONCRETE['on'] else
+              symnp.JNP.finfo(None).min)
       rs = symnp.JNP.sqrt(A.of(D))
       rs = rs if isinstance(rs, S) else rs.data[0]
       logits = {}
@@ -121,7 +124,7 @@ def attention(which):
       want = A(want, (H, Lq, Lk))
       tag = 'bias=%s mask=%s' % (use_bias, use_mask)
       cases.append(('attention weights ' + tag, w, want))
-      out = LA.dot_product_attention(q, k, v, bias=bias, mask=mask,
+      out = LA.dot_product_attention(R(q), R(k), R(v), bias=R(bias), mask=R(mask),
                                      deterministic=True)
       wo = []
       for i, h, d in idxs((Lq, H, D)):
@@ -130,12 +133,12 @@ def attention(which):
           acc = acc + want.at((h, i, j)) * v.at((j, h, d))
         wo.append(acc)
       cases.append(('attention output ' + tag, out, A(wo, (Lq, H, D))))
-      wn = NA.dot_product_attention_weights(q, k, bias=bias, mask=mask,
+      wn = NA.dot_product_attention_weights(R(q), R(k), bias=R(bias), mask=R(mask),
                                             deterministic=True)
       cases.append(('nnx attention weights ' + tag, wn, w))
       # (dropout_rate > 0 with deterministic=True selects flax's own path; with
       # rate 0 nnx defers to jax.nn.dot_product_attention, which is JAX code)
-      on = NA.dot_product_attention(q, k, v, bias=bias, mask=mask,
+      on = NA.dot_product_attention(R(q), R(k), R(v), bias=R(bias), mask=R(mask),
                                     dropout_rate=0.5, deterministic=True)
       cases.append(('nnx attention output ' + tag, on, out))
   return _prove(cases, t0)
@@ -164,7 +167,8 @@ def cells(which):
   t0 = time.time()
   cases = []
   F, Din = 2, 3
-  sg, th = symnp.NN.sigmoid, symnp.NN.tanh
+  sg, th = be('sigmoid'), be('tanh')
+  rsg, rth = symnp.NN.sigmoid, symnp.NN.tanh      # reference side
   kw = dict(gate_fn=sg, activation_fn=th)
   x_shape = (1, Din)
   if which == 0:
@@ -190,37 +194,37 @@ def cells(which):
     if which in (0, 4):
       (nc, nh), out = cell.apply(params, (c, h), x)
       gate = lambda a, b: _dense(p['i' + a], x, False) + _dense(p['h' + a], h)
-      i, f, g, o = sg(gate('i', 'i')), sg(gate('f', 'f')), th(gate('g', 'g')), sg(
+      i, f, g, o = rsg(gate('i', 'i')), rsg(gate('f', 'f')), rth(gate('g', 'g')), rsg(
           gate('o', 'o'))
       wc = f * c + i * g
-      wh = o * th(wc)
+      wh = o * rth(wc)
       cases += [('LSTM new_c', nc, wc), ('LSTM new_h', nh, wh), ('LSTM out', out, wh)]
       if which == 0:
         # NNX LSTMCell on the same parameters
         ncell = nnx.LSTMCell(Din, F, rngs=nnx.Rngs(0), gate_fn=sg, activation_fn=th)
         for nm in ('ii', 'if', 'ig', 'io', 'hi', 'hf', 'hg', 'ho'):
           lin = getattr(ncell, 'if_' if nm == 'if' else nm)
-          lin.kernel.value = p[nm]['kernel']
+          lin.kernel.value = R(p[nm]['kernel'])
           if 'bias' in p[nm]:
-            lin.bias.value = p[nm]['bias']
-          lin.dot_general = symnp.LAX.dot_general
-        (nnc, nnh), nout = ncell((c, h), x)
+            lin.bias.value = R(p[nm]['bias'])
+          lin.dot_general = be('dot_general')
+        (nnc, nnh), nout = ncell(R((c, h)), R(x))
         cases += [('nnx.LSTM new_c', nnc, nc), ('nnx.LSTM new_h', nnh, nh)]
     elif which == 1:
       nh, out = cell.apply(params, h, x)
-      r = sg(_dense(p['ir'], x) + _dense(p['hr'], h, False))
-      z = sg(_dense(p['iz'], x) + _dense(p['hz'], h, False))
-      n = th(_dense(p['in'], x) + r * _dense(p['hn'], h))
+      r = rsg(_dense(p['ir'], x) + _dense(p['hr'], h, False))
+      z = rsg(_dense(p['iz'], x) + _dense(p['hz'], h, False))
+      n = rth(_dense(p['in'], x) + r * _dense(p['hn'], h))
       wh = (1 - z) * n + z * h
       cases += [('GRU new_h', nh, wh), ('GRU out', out, wh)]
     elif which == 2:
       nh, out = cell.apply(params, h, x)
-      wh = th(_dense(p['i'], x) + _dense(p['h'], h, 'bias' in p['h']))
+      wh = rth(_dense(p['i'], x) + _dense(p['h'], h, 'bias' in p['h']))
       cases += [('SimpleCell new_h', nh, wh), ('SimpleCell out', out, wh)]
     else:
       nh, out = cell.apply(params, h, x)
-      f = sg(_dense(p['if'], x) + _dense(p['hf'], h, 'bias' in p['hf']))
-      n = th(_dense(p['in'], x) + f * _dense(p['hn'], h, 'bias' in p['hn']))
+      f = rsg(_dense(p['if'], x) + _dense(p['hf'], h, 'bias' in p['hf']))
+      n = rth(_dense(p['in'], x) + f * _dense(p['hn'], h, 'bias' in p['hn']))
       wh = (1 - f) * n + f * h
       cases += [('MGU new_h', nh, wh), ('MGU out', out, wh)]
   return _prove(cases, t0)
@@ -237,13 +241,20 @@ def sequences(which):
     for time_major in (False, True):
       shape = (T, Bn, Fd) if time_major else (Bn, T, Fd)
       x = A.sym('x', shape)
-      got = LR.flip_sequences(x, L, num_batch_dims=1, time_major=time_major)
+      got = A.of(LR.flip_sequences(R(x), R(L), num_batch_dims=1,
+                                   time_major=time_major))
       # a second input that agrees with x on the padding (t >= len) only
       x2 = A.sym('xx', shape)
       for idx in idxs(shape):
         t, b = (idx[0], idx[1]) if time_major else (idx[1], idx[0])
         extra.append(z3.Implies(L.at((b,)).t <= t, x2.at(idx).t == x.at(idx).t))
-      got2 = LR.flip_sequences(x2, L, num_batch_dims=1, time_major=time_major)
+        if sym.CONCRETE['on'] and sym.to_float(L.at((b,)).t) <= t:
+          flat = 0
+          for i_, s_ in zip(idx, shape):
+            flat = flat * s_ + i_
+          x2.data[flat] = x.at(idx)       # replay: enforce the assumption
+      got2 = A.of(LR.flip_sequences(R(x2), R(L), num_batch_dims=1,
+                                    time_major=time_major))
       valid_got, valid_want, pad_got, pad_got2 = [], [], [], []
       for idx in idxs(shape):
         t, b = (idx[0], idx[1]) if time_major else (idx[1], idx[0])
@@ -267,10 +278,10 @@ def sequences(which):
       cases.append(('flip_sequences padding depends on padding only time_major=%s'
                     % time_major, A(pad_got, shape), A(pad_got2, shape)))
       cases.append(('flip_sequences no lengths time_major=%s' % time_major,
-                    LR.flip_sequences(x, None, 1, time_major),
+                    LR.flip_sequences(R(x), None, 1, time_major),
                     x[::-1] if time_major else x[:, ::-1]))
     seq = A.sym('carry', (T, Bn, Fd))           # time-major stacked carries
-    last = LR._select_last_carry(seq, L)
+    last = LR._select_last_carry(R(seq), R(L))
     wl = []
     for b, f in idxs((Bn, Fd)):
       val = None
@@ -294,14 +305,18 @@ def _fam(name):
   return run
 
 
-def replay_family(case=None, family=None, arg=None, **kw):
-  """Engine-C replay: a fresh re-execution of the real layer code (regenerated
-  from /repo) for the reported family; reproduces iff the outputs again differ
-  from the reference for some input (z3 model).  The numeric backend is the shim
-  validated against real jax in the same run."""
+def replay_family(case=None, family=None, arg=None, model=None, **kw):
+  """see harness.c12.replay_family: real jax numeric stack on the model's values"""
   fn = globals()[family]
-  r = fn(arg)
-  return r.get('status') == 'unsat'
+  try:
+    for seed in range(4):
+      sym.set_concrete(True, model if seed == 0 else None, seed)
+      r = fn(arg)
+      if r.get('status') != 'unsat':
+        return False
+    return True
+  finally:
+    sym.set_concrete(False)
 
 
 def control_wrong_formula(which):
